@@ -24,6 +24,7 @@ import OFV.Proofs.C03Exact
 import OFV.Proofs.C03Main
 import OFV.Proofs.C03Boson
 import OFV.Proofs.C03Tensor
+import OFV.Proofs.C03WeylMain
 import Mathlib.Tactic.NormNum
 
 namespace OFV.C03
@@ -269,6 +270,30 @@ theorem normal_ordered_idempotent (a : Op) (va : ∀ e ∈ a, ∀ f ∈ e.1, f.2
   exact (canonicity_fermion (normalOrdered 0 .fermion a) a va' va).1
     (fun s out => normal_ordered_sound_melF a va out s)
 
+/-! ## canonicity (bosons, quadratures): polynomial representation
+
+Normal-ordered monomials `Π_j (x_j)^{m_j} (∂_j)^{n_j}` are linearly independent: among the terms
+with different coefficients take one with the fewest lowering factors, `n0`, and evaluate on
+`x^{n0}` (`weyl_independent`).  Exponent vectors are the canonical (`Trimmed`) ones the driver
+enumerates. -/
+
+/-- **Canonicity, bosons**: two BosonOperators have the same coefficients `⟨x^out| · |x^s⟩` in
+the executable Spec for all canonical exponent vectors IF AND ONLY IF their normal-ordered
+forms have equal coefficients. -/
+theorem canonicity_boson (a b : Op) (va : ∀ e ∈ a, ∀ f ∈ e.1, f.2 < 2) (vb : ∀ e ∈ b, ∀ f ∈ e.1, f.2 < 2) :
+    (∀ s out, Trimmed s → Trimmed out →
+      Spec.GV.coeff (Spec.applyOp .boson a s) out = Spec.GV.coeff (Spec.applyOp .boson b s) out) ↔
+    ∀ t, Dict.getD (normalOrdered 0 .boson a) t 0 = Dict.getD (normalOrdered 0 .boson b) t 0 :=
+  canonicity_boson_iff a b va vb
+
+/-- **Canonicity, quadratures**, for every `ħ ≠ 0`. -/
+theorem canonicity_quad (hbar : GQ) (hh : hbar ≠ 0) (a b : Op)
+    (va : ∀ e ∈ a, ∀ f ∈ e.1, f.2 < 2) (vb : ∀ e ∈ b, ∀ f ∈ e.1, f.2 < 2) :
+    (∀ s out, Trimmed s → Trimmed out →
+      Spec.GV.coeff (Spec.applyOp (.quad hbar) a s) out = Spec.GV.coeff (Spec.applyOp (.quad hbar) b s) out) ↔
+    ∀ t, Dict.getD (normalOrdered 0 (.quad hbar) a) t 0 = Dict.getD (normalOrdered 0 (.quad hbar) b) t 0 :=
+  canonicity_quad_iff hbar hh a b va vb
+
 /-! ## the exact regime: the real tolerance versus tolerance 0
 
 The theorems above are about the Model run with tolerance 0; the code (and the driver) run with
@@ -366,5 +391,14 @@ theorem chemist_ordered_sound_fock (a : Op) (hv : ∀ e ∈ a, ∀ f ∈ e.1, f.
 theorem reorder_sound (I : Interp A) (m : List Nat) (a : Op) :
     I.evalOp (reorder 0 .fermion m a) = (I.relabel m).evalOp a :=
   reorder_sound_gen I .fermion (fun _ => ⟨rfl, rfl⟩) m a
+
+/-- `reorder` for BosonOperator / QuadOperator (the constructor sorts by index): same statement,
+for interpretations in which factors of different modes commute — before and after relabelling. -/
+theorem reorder_sound_boson_quad (I : Interp A) (cls : Cls) (hc : cls = .boson ∨ cls = .quad)
+    (comm : ∀ f h : Factor, f.1 ≠ h.1 → I.g f * I.g h = I.g h * I.g f) (m : List Nat) (a : Op) :
+    I.evalOp (reorder 0 cls m a) = (I.relabel m).evalOp a := by
+  apply reorder_sound_gen I cls _ m a
+  intro t
+  rcases hc with h | h <;> subst h <;> exact ⟨rfl, evalT_sortF I comm t⟩
 
 end OFV.C03
